@@ -57,6 +57,7 @@ Definition newchannelreq_marshal (ch f mx mn : Z) : outcome (list Z) :=
   let fr := if f >=? 2400000000 then f / 2 else f in
   if fr / 100 >=? 16777216 then Err
   else if negb (f mod 100 =? 0) then Err
+  else if (f >=? 2400000000) && negb (f mod 200 =? 0) then Err   (* fix c8a94da *)
   else if mx >? 15 then Err
   else if mn >? 15 then Err
   else Ok (ch :: le3 (fr / 100) ++ [Z.lxor mn ((mx * 16) mod 256)]).
